@@ -169,3 +169,100 @@ func TestC04_samples(t *testing.T) {
 		Gen:  genC04, Run: runC04,
 	})
 }
+
+// The estimate creeping up on its ceiling: with smoothing below 1 a healthy saturated run brings the float estimate
+// asymptotically close to the maximum (closer than any fixed epsilon after enough samples) without reaching it; the
+// integer part, the pre-computed table index and every "is it at the ceiling" test live in that gap. The case is a
+// limit started a few units below a ceiling at or around the table ends, a healthy run of generated length, one
+// disturbance (drop, slow sample, idle sample), and again - judged by C04's oracle after every sample.
+
+type c04cCase struct {
+	Cfg     LimitCfg `json:"cfg"`
+	Below   int      `json:"below"` // initial = max - below
+	RTT     int64    `json:"rtt"`
+	Rounds  []int    `json:"rounds"`  // healthy samples before each disturbance
+	Disturb []int    `json:"disturb"` // 0 drop, 1 slow sample (10 x rtt), 2 idle sample, 3 drop with slow rtt
+}
+
+func genC04C(t *rapid.T) c04cCase {
+	c := c04cCase{Cfg: genLimitCfg(t, []string{"vegas", "vegas", "gradient", "gradient2"}, false)}
+	c.Cfg.Max = rapid.SampledFrom([]int{1000, 1000, 1000, 999, 1001, 100, 10, 2000}).Draw(t, "max")
+	c.Below = rapid.SampledFrom([]int{0, 1, 2, 5, 10, 20, 100}).Draw(t, "below")
+	c.Cfg.Initial = maxInt(1, c.Cfg.Max-c.Below)
+	if c.Cfg.Min > c.Cfg.Initial {
+		c.Cfg.Min = c.Cfg.Initial
+	}
+	if c.Cfg.Algo == "gradient" || c.Cfg.Algo == "gradient2" {
+		c.Cfg.Queue = rapid.SampledFrom([]string{"", "fixed:1", "fixed:4", "sqrt:4"}).Draw(t, "queue")
+		if c.Cfg.Max < 32 && c.Cfg.Queue != "fixed:1" {
+			c.Cfg.Queue = "fixed:1"
+		}
+	}
+	c.Cfg.Smoothing = rapid.SampledFrom([]float64{0.05, 0.1, 0.2, 0.2, 0.5, 0.5, 0.9, 1}).Draw(t, "smoothing")
+	c.Cfg.ProbeInterval = -1
+	c.Cfg.ProbeMult = 100
+	c.RTT = rapid.OneOf(rapid.Int64Range(1, 1000), rapid.Int64Range(100_000, 50_000_000)).Draw(t, "rtt")
+	n := rapid.IntRange(1, 6).Draw(t, "rounds")
+	for i := 0; i < n; i++ {
+		c.Rounds = append(c.Rounds, rapid.OneOf(rapid.IntRange(1, 60), rapid.IntRange(1, 600)).Draw(t, "healthy"))
+		c.Disturb = append(c.Disturb, rapid.IntRange(0, 3).Draw(t, "disturb"))
+	}
+	return c
+}
+
+func runC04C(_ *testing.T, c c04cCase) kit.Outcome {
+	b, err := tryBuildLimit(c.Cfg, nil)
+	if err != nil {
+		return kit.Outcome{Labels: []string{"discard:constructor-rejects"}}
+	}
+	floor := c.Cfg.floorOf()
+	ceil := maxInt(c.Cfg.Max, b.Outer.EstimatedLimit())
+	step := 0
+	feed := func(s Sample) *kit.Outcome {
+		before := b.Outer.EstimatedLimit()
+		inf := s.inflight(before)
+		if p := safeSample(b, s, inf); p != nil {
+			o := kit.Viol(c.Cfg.Algo+":panic", "sample %d %+v (in-flight %d, estimate before %d, ceiling %d, smoothing %v) panicked: %v", step, s, inf, before, c.Cfg.Max, c.Cfg.Smoothing, p)
+			return &o
+		}
+		step++
+		if after := b.Outer.EstimatedLimit(); after < floor || after > ceil {
+			o := kit.Viol(c.Cfg.Algo+":bounds", "after sample %d %+v: estimate %d -> %d outside [%d,%d]", step, s, before, after, floor, ceil)
+			return &o
+		}
+		return nil
+	}
+	atCeil := false
+	for r, n := range c.Rounds {
+		for i := 0; i < n; i++ {
+			if o := feed(Sample{RTT: c.RTT, Rel: "dbl"}); o != nil {
+				return *o
+			}
+		}
+		if b.Outer.EstimatedLimit() >= c.Cfg.Max-1 {
+			atCeil = true
+		}
+		d := Sample{RTT: c.RTT, Rel: "dbl", Drop: true}
+		switch c.Disturb[r] {
+		case 1:
+			d = Sample{RTT: c.RTT * 10, Rel: "dbl"}
+		case 2:
+			d = Sample{RTT: c.RTT, Inf: 0}
+		case 3:
+			d = Sample{RTT: c.RTT * 10, Rel: "dbl", Drop: true}
+		}
+		if o := feed(d); o != nil {
+			return *o
+		}
+	}
+	return kit.Outcome{NonTrivial: atCeil && c.Cfg.Smoothing < 1, Labels: []string{"algo:" + c.Cfg.Algo, fmt.Sprintf("max:%d", c.Cfg.Max)}}
+}
+
+func TestC04_ceiling_approach(t *testing.T) {
+	kit.RequireMode(t, "std")
+	kit.Check(t, kit.Prop[c04cCase]{
+		ID: "C04", Quick: 3000, Thor: 400_000,
+		Rule: "Vegas / Gradient / Gradient2 started 0-100 below a ceiling at or around the ends of the pre-computed tables (1000, 999, 1001, 100, 10, 2000), smoothing 0.05-1: healthy saturated runs of 1-600 samples, each followed by a drop / slow sample / idle sample; no panic, estimate in bounds after every sample; non-trivial = the estimate came within one of the ceiling with smoothing below 1",
+		Gen:  genC04C, Run: runC04C,
+	})
+}
